@@ -27,5 +27,11 @@ ForgeOf(rb) == KxInitiator(BFromBE(KXDA), BFromBE(KXRA), FRA, PBx, rb, ZA(ID16, 
 ForgeRec(rb, f) == [kind |-> "forge", da |-> KXDA, db |-> KXDB, ra |-> KXRA, rbx |-> B32(rb[1]), rby |-> B32(rb[2]), sb |-> f.sb, usable |-> IF f.v = C!Inf THEN 0 ELSE 1]
 ASSUME \A j \in 1..Len(OffCurve) : ~C!OnCurve(OffCurve[j])
 ASSUME \A j \in 1..Len(OffCurve) : PrintT(<<"PLAN", ToJson(ForgeRec(OffCurve[j], ForgeOf(OffCurve[j])))>>)
+\* an unlucky honest initiator: for the ephemeral scalar k, the private key dA = -xbar([k]G) k (mod n) makes P_A + [xbar]R_A the point at
+\* infinity, so the responder's V is O whatever t_B is: step B5 must fail (there is no x_V to hash)
+VzKs == << KXRA, KXRB, B32(BFromBE(<<5>>)) >>
+VzDa(k) == BSubMod(BZero, BMulMod(Xbar(Mul(k, G)), BFromBE(k), NN), NN)
+VzRec(k) == [kind |-> "vzero", da |-> B32(VzDa(k)), db |-> KXDB, ra |-> k, check |-> IF C!PAdd(MulN(VzDa(k), G), MulN(Xbar(Mul(k, G)), Mul(k, G))) = C!Inf THEN 1 ELSE 0]
+ASSUME \A j \in 1..Len(VzKs) : PrintT(<<"PLAN", ToJson(VzRec(VzKs[j]))>>)
 Emit == kkind # "none" => PrintT(<<"PLAN", ToJson([ra |-> InSub("RA"), rb |-> InSub("RB"), sb |-> InSub("SB"), sa |-> InSub("SA"), kind |-> kkind])>>)
 =============================================================================
